@@ -324,6 +324,19 @@ def build_conf(spec):
         if spec['src'][gn] == 'wms':
             # the same upstream as a cascaded layer (no cache): the pixel limit is the only guard of such a layer
             conf['layers'].append({'name': 'd_' + gn, 'title': 'direct ' + gn, 'sources': ['s_' + gn]})
+    gnames = sorted(spec['grids'])
+    if len(gnames) >= 2 and spec['grids'][gnames[0]]['srs'] != spec['grids'][gnames[1]]['srs'] and spec['src'][gnames[0]] == 'wms' \
+            and spec['kind'] != 'dims':
+        # one cache on both grids (two SRS): the layer MapProxy builds for it dispatches on the request SRS; the tile limit of
+        # the cache must hold behind that dispatcher too. Requests go to the first grid only.
+        c = dict(spec['caches'][gnames[0]])
+        if spec.get('limit_global'):
+            c.pop('max_tile_limit', None)
+        c['grids'] = [gnames[0], gnames[1]]
+        c['sources'] = ['s_' + gnames[0]]
+        conf['sources']['s_' + gnames[0]]['supported_srs'] = [spec['grids'][gnames[0]]['srs'], spec['grids'][gnames[1]]['srs']]
+        conf['caches']['c_multi'] = c
+        conf['layers'].append({'name': 'l_multi', 'title': 'cache on two grids', 'sources': ['c_multi']})
     conf['services'] = {'tms': dict(spec['tms']), 'kml': dict(spec['kml']), 'wmts': dict(spec['wmts']),
                         'wms': {'srs': srs_all, 'max_output_pixels': spec['max_output_pixels'],
                                 'image_formats': ['image/png', 'image/jpeg'], 'md': {'title': 'c16'}}}
@@ -551,6 +564,7 @@ def build(run, spec, d):
     os.makedirs(ctx.cache_root, exist_ok=True)
     ctx.grids = {}
     ctx.hosts = {}
+    ctx.layer_names = [l_['name'] for l_ in conf['layers']]
     for gn, g in spec['grids'].items():
         grid = sc.grid(gn)
         lat = upstream.Lattice.from_grid(grid)
@@ -648,6 +662,8 @@ def make_plan(run, ctx, rng):
     ctx.tms = {}
     for p in tms_paths:
         lname = p[len('/tms/1.0.0/'):]
+        if not re.match(r'l_(g\d+)', lname):
+            continue        # the layer on two grids is probed through WMS only
         gn = re.match(r'l_(g\d+)', lname).group(1)
         g = ctx.grids[gn]
         try:
@@ -792,6 +808,8 @@ def make_plan(run, ctx, rng):
         run.count('wmts_rest_capabilities_not_200')
     else:
         for lname, ly in wm['layers'].items():
+            if not re.match(r'l_(g\d+)', lname):
+                continue
             gn = re.match(r'l_(g\d+)', lname).group(1)
             g = ctx.grids[gn]
             fm = ly['formats'][0]
@@ -984,6 +1002,9 @@ def make_plan(run, ctx, rng):
                     run.dc('tile_limit_request_would_exceed_pixel_limit')
                     continue
                 add('wms', gn, getmap(bbox, size, 'png'), exp, 'max_tile_limit', ac, rect=list(bbox), size=list(size), L=L, ntiles=n * m)
+                if exp == 'above' and 'l_multi' in ctx.layer_names and gn == sorted(ctx.grids)[0]:
+                    add('wms', gn, getmap(bbox, size, 'png', layers='l_multi'), exp, 'max_tile_limit', ac + ':cache_on_two_grids',
+                        size=list(size), L=L, ntiles=n * m)
         # a whole row of the deepest level through a thin strip with few pixels: far above the tile limit
         L = g['levels'] - 1
         nx, ny = g['sizes'][L]
